@@ -365,4 +365,68 @@ theorem ctxOfName_client_hist (id ts : Bytes) (hv : validateID id = true) (hts :
     have : hmacName id = (id ++ ofStr "_hma") ++ [99] := by simp [hmacName, sHmac, ofStr]
     rw [this]; exact not_isHistorical_of_last _ 99 (by decide) (by decide)
 
+/-! ## rotated public keys are public (classified by the history directory) -/
+
+/-- **A rotated public key is not private.** For a public key file `<n>.pub` that is one ordinary
+component and a timestamp `ts`: `isPrivate("<n>.pub.old/<ts>") = false` – the decision is taken on the
+name of the history directory (`….pub.old`), not on the timestamp. -/
+theorem isPrivate_hist_pub (n ts : Bytes) (hn : GoodComp (n ++ sPub ++ sOld))
+    (hts : isTimestamp ts = true) (hne : ts ≠ []) : isPrivate (histName (n ++ sPub) ts) = false := by
+  have hslash : slash ∉ ts := fun hm => by
+    have := isTimestamp_chars hts slash hm
+    revert this; decide
+  have hname : histName (n ++ sPub) ts = (n ++ sPub ++ sOld) ++ slash :: ts := by simp [histName]
+  have hh : isHistorical (histName (n ++ sPub) ts) = true := by
+    unfold isHistorical
+    rw [hname, base_append_slash _ _ hne hslash]; exact hts
+  have hdir : dirOf (histName (n ++ sPub) ts) = n ++ sPub ++ sOld := by
+    unfold dirOf
+    rw [hname, uptoLastSlash_append _ _ hslash, clean_comp_slash _ hn]
+  have hbase : base (n ++ sPub ++ sOld) = n ++ sPub ++ sOld := base_noslash _ hn.1 hn.2.2.2
+  have hpoison : n ++ sPub ++ sOld ≠ poisonKey := ne_of_slash hn.2.2.2 (by decide)
+  have hpub : isPublic (n ++ sPub ++ sOld) = true := by
+    have : n ++ sPub ++ sOld = n ++ sPubOld := by simp [sPub, sOld, sPubOld, ofStr]
+    rw [this]; simp [isPublic, hasSuffix_append]
+  unfold isPrivate
+  simp only [hh, if_true, hdir, hbase, hpoison, if_false, hpub, Bool.not_true]
+
+theorem dropWhile_all {α} (p : α → Bool) (l : List α) (h : ∀ a ∈ l, p a = true) : l.dropWhile p = [] := by
+  induction l with
+  | nil => rfl
+  | cons a r ih =>
+    rw [List.dropWhile_cons, h a (by simp)]
+    exact ih (fun x hx => h x (by simp [hx]))
+
+/-- … whereas the timestamp alone (the base name of a rotated key) is classified as private: a
+timestamp contains neither `.pub` nor is it a history name of anything. -/
+theorem isPrivate_timestamp (ts : Bytes) (hts : isTimestamp ts = true) (hne : ts ≠ []) : isPrivate ts = true := by
+  have hslash : slash ∉ ts := fun hm => by
+    have := isTimestamp_chars hts slash hm
+    revert this; decide
+  have hb : base ts = ts := base_noslash ts hne hslash
+  have hh : isHistorical ts = true := by unfold isHistorical; rw [hb]; exact hts
+  -- dirOf ts = clean [] = "."
+  have hu : uptoLastSlash ts = [] := by
+    unfold uptoLastSlash
+    have hall : ∀ x ∈ ts.reverse, (decide (x ≠ slash)) = true := by
+      intro x hx
+      simpa using fun e : x = slash => hslash (e ▸ (List.mem_reverse.mp hx))
+    rw [dropWhile_all _ _ hall]; rfl
+  have hdir : dirOf ts = [dot] := by unfold dirOf; rw [hu]; decide
+  unfold isPrivate
+  simp only [hh, if_true, hdir]
+  decide
+
+/-- rotated storage public key of a valid client: public by its history directory; its base name is the timestamp -/
+theorem isPrivate_hist_storagePub (id ts : Bytes) (hv : validateID id = true) (hts : isTimestamp ts = true) (hne : ts ≠ []) :
+    isPrivate (histName (storagePubName id) ts) = false ∧ base (histName (storagePubName id) ts) = ts := by
+  have hgood : GoodComp (id ++ sStorage ++ sPub ++ sOld) := by
+    simpa [List.append_assoc] using goodComp_valid_append hv (sStorage ++ (sPub ++ sOld)) (by decide)
+  have hslash : slash ∉ ts := fun hm => by
+    have := isTimestamp_chars hts slash hm
+    revert this; decide
+  refine ⟨by simpa [storagePubName] using isPrivate_hist_pub (id ++ sStorage) ts hgood hts hne, ?_⟩
+  have : histName (storagePubName id) ts = (storagePubName id ++ sOld) ++ slash :: ts := by simp [histName]
+  rw [this, base_append_slash _ _ hne hslash]
+
 end AcraModel.KeystoreSec.V1
